@@ -362,7 +362,7 @@ def g5(ctx):
     ne = [c for c in f.all_calls() if c.callee and c.callee.name in ("ne", "eq") and not c.body.blocks[c.bb]["cleanup"]]
     ok = False
     for c in ne:
-        a, b_ = strip_role(f.role_of_operand(c.args[0])), strip_role(f.role_of_operand(c.args[1]))
+        a, b_ = strip_role(c.body.role_of_operand(c.args[0])), strip_role(c.body.role_of_operand(c.args[1]))       # (the test may sit in a filter closure)
         ok = ok or (a != b_)
     ctx.check(ok, "moved-slot-test", "the base-point search considers exactly the slots with x != y", "find_lowest_nonstab no longer tests x != y", where_of(f))
     it = fn(crate, "is_trivial", GRP)
